@@ -371,7 +371,7 @@ def run_rotate(ck):
                     "metrics_15s_ttl": ttl, "recorded": rec, "errors": c["conc"]["errs"],
                     "diverged_as_the_theorem_says": bool(rec) and rec[0] != ttl and "toIntervalDay(60)" in ttl and "toIntervalDay(30)" in rec[0]}
     outp = os.path.join(ck.work, "rotate.jsonl")
-    args = ["--seed", ck.seed, "--n", ck.n(1500, 12000), "--out", outp]
+    args = ["--seed", ck.seed, "--n", ck.n(1100, 12000), "--out", outp]
     if not ck.quick():
         args += ["--exhaustive", 200]
     rc, out = ck.go_run("rotate", args)
